@@ -4,5 +4,5 @@ cd "$(dirname "$0")/.."
 tier=${1:-quick}
 for p in C01 C02 C03 C04 C05 C06 C07 C08 C09 C10 C11 C12 C13 C14 C15 C16 C18 C19 C20; do
   t0=$(date +%s); out=$(./check $p --tier $tier 2>&1); rc=$?; t1=$(date +%s)
-  echo "$p exit=$rc $((t1-t0))s $(echo "$out" | grep -v WARNING | tail -1 | cut -c1-160)"
+  echo "$p exit=$rc $((t1-t0))s undecided-lines=$(echo "$out" | grep -c '^UNDECIDED') $(echo "$out" | grep -v WARNING | tail -1 | cut -c1-200)"
 done
